@@ -40,6 +40,7 @@ func runC20(c *Ctx) {
 	c.Rule("FORMAT-TABLES", "format constants, name tables and the printer switch are mutually total over the same slice", 8)
 	c.Rule("SET-CONSTRUCTION", "annotation sets are sorted and de-duplicated, with an unambiguous identity key", 4)
 	c.Rule("ENCODED-OUTPUT", "structured formats encode or escape free text", 4)
+	c.Rule("ESCAPE-ORDER", "the escape character itself is escaped first (or in a single pass)", 2)
 
 	pkCtl := p.Pkg("private/buf/bufctl")
 	if pkCtl == nil {
@@ -695,6 +696,40 @@ func c20Encoded(c *Ctx) {
 	// ':' and ',' (a path "a,line=1:b.proto" otherwise forges properties); the message must escape exactly '%', CR, LF
 	// (escaping ':' there prints "%3A" literally). The character sets are read from the strings.NewReplacer tables the
 	// helpers use; the position is decided by dominance of the "::" separator write.
+	// replacerTable reads the (old -> new) pairs a package-level strings.Replacer variable is initialised with
+	replacerTable := func(obj types.Object) map[string]bool {
+		if obj == nil || obj.Pkg() == nil {
+			return nil
+		}
+		dpk := p.ByPath[obj.Pkg().Path()]
+		if dpk == nil {
+			return nil
+		}
+		var set map[string]bool
+		for _, f := range dpk.Syntax {
+			ast.Inspect(f, func(n ast.Node) bool {
+				vs, ok := n.(*ast.ValueSpec)
+				if !ok {
+					return true
+				}
+				for i, nm := range vs.Names {
+					if dpk.TypesInfo.Defs[nm] != obj || i >= len(vs.Values) {
+						continue
+					}
+					if call, ok := vs.Values[i].(*ast.CallExpr); ok && calleeIs(Callee(dpk.TypesInfo, call), "strings", "NewReplacer") {
+						set = map[string]bool{}
+						for k := 0; k+1 < len(call.Args); k += 2 {
+							if tv, ok := dpk.TypesInfo.Types[call.Args[k]]; ok && tv.Value != nil {
+								set[constant.StringVal(tv.Value)] = true
+							}
+						}
+					}
+				}
+				return true
+			})
+		}
+		return set
+	}
 	escSet := func(fn *types.Func) map[string]bool {
 		d := p.DeclOf(fn)
 		if d == nil || d.Decl.Body == nil {
@@ -782,7 +817,20 @@ func c20Encoded(c *Ctx) {
 			continue
 		}
 		set := escSet(staticCalleeObj(&ac.Call))
+		singlePass := false
+		if fn := staticCalleeObj(&ac.Call); fn != nil && fn.Pkg() != nil && fn.Pkg().Path() == "strings" && fn.Name() == "Replace" && len(ac.Call.Args) >= 1 {
+			// the Replacer is applied directly: its table is the initialiser of the package-level variable
+			if u, ok := ac.Call.Args[0].(*ssa.UnOp); ok && u.Op == token.MUL {
+				if g, ok := u.X.(*ssa.Global); ok {
+					set = replacerTable(g.Object())
+					singlePass = set != nil
+				}
+			}
+		}
 		k++
+		if singlePass {
+			c.Ob("ESCAPE-ORDER", fmt.Sprintf("github-actions/application#%d", k), call.Pos(), true, true, "escaped in a single pass through a strings.Replacer (no output of one replacement is re-scanned)")
+		}
 		inData := instrDominates(sep, call.Instr)
 		okSet := set != nil && set["%"] && set["\r"] && set["\n"]
 		where := "property value"
